@@ -694,14 +694,66 @@ def to_grid(rng, d, npos):
             "ids": pick("ids"), "labels": labels, "layout": "gridT" if rng.random() < 0.25 else "grid"}
 
 
+def coord_exchange(rng, call, force=None):
+    """the next call's point set is made of the SAME coordinate arrays, exchanged or permuted: lat <-> lon, same
+    lat with new lon, same lon with new lat, the same points in another order, the lat array alone in another order.
+    Any cache key coarser than "both coordinate arrays, in order" then answers for the old points.  Some points of
+    the other dataset are moved onto new positions, so that the set of collocations changes."""
+    big = "p" if len(call["p"]["t"]) >= len(call["s"]["t"]) else "s"      # the larger dataset builds the index
+    side = big if rng.random() < 0.7 else ("s" if big == "p" else "p")
+    d, other = call[side], call["s" if side == "p" else "p"]
+    if d.get("grid") or other.get("grid"):
+        return None
+    n = len(d["lat"])
+    lat, lon = list(d["lat"]), list(d["lon"])
+    kinds = ["newlon", "newlat", "permute-points", "permute-lat"]
+    if all(v is None or -90.0 <= v <= 90.0 for v in lon):
+        kinds += ["swap", "swap", "swap"]
+    kind = force if force in kinds else rng.choice(kinds)
+    perm = list(range(n))
+    rng.shuffle(perm)
+    if kind == "swap":
+        lat, lon = lon, lat
+    elif kind == "newlon":
+        lon = [None if v is None else max(-180.0, min(180.0, v + rng.choice([0.5, -0.5, 3.0]))) for v in lon]
+    elif kind == "newlat":
+        lat = [None if v is None else max(-90.0, min(90.0, v + rng.choice([0.5, -0.5, 3.0]))) for v in lat]
+    elif kind == "permute-points":
+        lat, lon = [lat[i] for i in perm], [lon[i] for i in perm]
+    else:
+        lat = [lat[i] for i in perm]
+    d["lat"], d["lon"] = lat, lon
+    ok = [i for i in range(n) if lat[i] is not None and lon[i] is not None]
+    for k in rng.sample(range(len(other["lat"])), min(len(other["lat"]), rng.randint(1, 3))):
+        if ok:
+            j = rng.choice(ok)
+            other["lat"][k], other["lon"][k] = lat[j], lon[j]
+            other["t"][k] = d["t"][j]
+    for x in (d, other):
+        if x.get("layout") == "nolabel":
+            x["layout"] = "c"
+    return kind
+
+
 def gen_history(rng, R, max_n):
-    """calls on one Collocator: same/other/moved point sets, changing sizes and tuning"""
+    """calls on one Collocator: same/other/moved point sets, exchanged coordinate arrays, changing sizes and tuning"""
     calls = [gen_call(rng, R, max_n)]
-    for _ in range(rng.randint(1, 4)):
+    exchange = rng.random() < 0.35      # a history around exchanged coordinate arrays (longitudes usable as latitudes)
+    if exchange:
+        for _ in range(8):
+            if all(v is None or abs(v) <= 90.0 for d in (calls[0]["p"], calls[0]["s"]) for v in d["lon"]) and \
+                    not calls[0]["p"].get("grid") and not calls[0]["s"].get("grid"):
+                break
+            calls = [gen_call(rng, R, max_n)]
+    for step in range(rng.randint(1, 4)):
         prev = calls[-1]
         t = rng.random()
         new = json.loads(json.dumps(prev))
         new["seed"] = rng.randrange(2 ** 31)
+        if (exchange or rng.random() < 0.2) and \
+                coord_exchange(rng, new, force="swap" if exchange and step % 2 == 0 else None) is not None:
+            calls.append(new)
+            continue
         if t < 0.25:        # same primary, new secondary
             fresh = gen_call(rng, R, max_n)
             new["s"] = fresh["s"]
